@@ -127,3 +127,17 @@ func verifPairs(b *strings.Builder, s *linkedPairs, depth int) {
 	}
 	b.WriteByte('}')
 }
+
+// VerifIsLazy reports whether the node is a partially loaded container (after resolving
+// a raw node the way every accessor does).
+func VerifIsLazy(n *Node) bool {
+	if n == nil {
+		return false
+	}
+	if n.t&_V_RAW != 0 {
+		// a raw container becomes lazy at the first access
+		c := n.t &^ _V_RAW
+		return c == types.V_ARRAY || c == types.V_OBJECT
+	}
+	return n.isLazy()
+}
